@@ -224,6 +224,15 @@ class WCM(WCB):
         return super().to_bytes()
 
 
+class WCH(WC):
+    """The same class with a legal but coarse hash (it ignores the prefix, the
+    statistics and the flags): unequal classes collide all the time, so every
+    dictionary keyed by classes must fall back on ``==``."""
+
+    def __hash__(self) -> int:
+        return hash((self.alphabet, len(self.patterns)))
+
+
 # --------------------------------------------------------------------------
 # statistic transforms
 # --------------------------------------------------------------------------
@@ -726,24 +735,31 @@ class StatPerm(_Unary):
 class LetterSwap(_Settings, SymmetryStrategy):
     """Relabel the letters by a permutation of the alphabet (a symmetry)."""
 
-    SETTINGS = ("shift",)
+    SETTINGS = ("shift", "swap")
 
-    def __init__(self, shift=1, **kw):
+    def __init__(self, shift=1, swap=False, **kw):
         self.shift = int(shift)
+        self.swap = bool(swap)  # then exchange the first two letters (does not commute with rotations on 3 letters)
         super().__init__(**kw)
 
     def _sigma(self, c: WC):
         n = len(c.alphabet)
         k = self.shift % n if n else 0
-        return {a: c.alphabet[(i + k) % n] for i, a in enumerate(c.alphabet)}
+        sig = {a: c.alphabet[(i + k) % n] for i, a in enumerate(c.alphabet)}
+        if self.swap and n >= 2:
+            tau = {c.alphabet[0]: c.alphabet[1], c.alphabet[1]: c.alphabet[0]}
+            sig = {a: tau.get(b, b) for a, b in sig.items()}
+        return sig
 
     def _apply(self, sig, word):
         return "".join(sig.get(l, l) for l in word)
 
     def decomposition_function(self, c: WC):
-        if len(c.alphabet) < 2 or self.shift % len(c.alphabet) == 0:
+        if len(c.alphabet) < 2:
             return None
         sig = self._sigma(c)
+        if all(a == b for a, b in sig.items()):
+            return None
         return (
             c.derive(
                 prefix=self._apply(sig, c.prefix),
@@ -758,7 +774,7 @@ class LetterSwap(_Settings, SymmetryStrategy):
         return ({k: k for k in comb_class.extra_parameters},)
 
     def formal_step(self) -> str:
-        return f"rotate the alphabet by {self.shift}"
+        return f"rotate the alphabet by {self.shift}" + (" and exchange the first two letters" if self.swap else "")
 
     def forward_map(self, comb_class, obj, children=None):
         return (W(self._apply(self._sigma(comb_class), obj)),)
@@ -1086,5 +1102,5 @@ def build_pack(desc) -> StrategyPack:
 
 
 def build_class(desc, compressed=False) -> WC:
-    cls = {0: WC, 1: WCB, 2: WCM}[int(compressed)]
+    cls = {0: WC, 1: WCB, 2: WCM, 3: WCH}[int(compressed)]
     return cls.from_key(desc)
